@@ -1,6 +1,6 @@
 /-
 Model of `app/ldiff` (diff.go, hashrange.go) — the range-hash index and the diff recursion,
-with the four `fix:` patches of `repo_patches/ldiff` applied (nilhash, update, merge, bottomrange).
+with the four `fix:` commits applied (nilhash, update, merge, bottomrange).
 
 What is mirrored, function by function:
 
@@ -9,20 +9,24 @@ What is mirrored, function by function:
   skiplist ordered by (xxhash(id),id)  `List Elem` kept sorted by `Elem.lt` (`slInsert`, `slRemove`)
   genTupleRanges                       `genTupleRanges` / `childRange` (uint64 arithmetic, explicit `% M`)
   getBottomRange (bucket clamp)        `bucketOf`
+                                       both packaged as `goSplit : Splitter`; the tree functions take
+                                       an arbitrary `Splitter` (theorems hold for every one with `SplitOk`)
   hashRange{elements,isDivided,hash}   `Tree.leaf cnt hash` / `Tree.div cnt hash kids`
   map[rangeTuple]*hashRange            the position in the tree (`findNode` descends from the top)
-  makeRange / makeBottomRanges         `build`
+  makeRange / makeBottomRanges         `build` / `buildKids` (explicit depth budget)
+  the top range (always divided)       `buildTop`, `topOp`
   addElement + recalculateHashes       `addEl`   (dirty marks = recomputation along the walked path)
   updateElement (fix-update)           `updEl`
-  removeElement (fix-merge)            `rmEl`    (the upward merge loop = the `active` flag)
+  removeElement (fix-merge)            `rmEl`    (the upward merge loop = the Boolean `active` result)
   calcElementsHash / calcDividedHash   `elemsHash` / `kidsHash` over an abstract digest algebra
-  diff.getRange (fix-nilhash)          `getRange`
+  diff.getRange (fix-nilhash)          `Index.getRange`
   compareResults / compareElements*    `compareResults` / `cmpEqual` / `cmpGreater`
-  Diff / CompareDiff round loop        `rounds`
+  Diff / CompareDiff round loop        `rounds` (80 rounds; `none` = still running)
 
 xxhash64 values are DATA supplied with every element (field `hash`); blake3 is an abstract
 `DigAlg D` (`hE` over the serialised elements, `hN` over the concatenated child digests).
-Core Lean only (this file is linked into `modeld`).
+`Tree.stuck` marks the places where Go does not return (unbounded recursion, division by zero,
+nil child). Core Lean only (this file is linked into `modeld`).
 -/
 namespace AnySync.Ldiff
 
@@ -107,10 +111,21 @@ def elemsHash {D} (A : DigAlg D) (els : List Elem) : Option D :=
 
 /-! ### the range tree -/
 
+/-- how a range is divided: `child lo hi df i` is the `i`-th tuple of `genTupleRanges`,
+`bucket lo hi df h` the index `getBottomRange` computes. The tree functions below are written
+against this interface (the refinement theorems hold for every splitter satisfying `SplitOk`);
+the Go arithmetic is the instance `goSplit`. -/
+structure Splitter where
+  child : (lo hi df i : Nat) → Nat × Nat
+  bucket : (lo hi df h : Nat) → Option Nat
+
+def goSplit : Splitter := ⟨childRange, bucketOf⟩
+
 inductive Tree (D : Type) where
   | leaf (cnt : Nat) (hash : Option D)
-  | div (cnt : Nat) (hash : Option D) (kids : Nat → Tree D)
-  /-- Go would recurse without bound here (a range narrower than `df` over the threshold) -/
+  | div (cnt : Nat) (hash : Option D) (kids : List (Tree D))
+  /-- Go does not produce a result here: unbounded recursion (a range narrower than `df` over the
+  threshold), division by zero, or a nil child -/
   | stuck
 
 namespace Tree
@@ -121,103 +136,129 @@ def hash {D} : Tree D → Option D
 end Tree
 
 /-- `calcDividedHash`: the child digests in range order, nil ones contribute nothing -/
-def kidsHash {D} (A : DigAlg D) (df : Nat) (kids : Nat → Tree D) : Option D :=
-  some (A.hN ((List.range df).filterMap fun i => (kids i).hash))
+def kidsHash {D} (A : DigAlg D) (kids : List (Tree D)) : Option D :=
+  some (A.hN (kids.filterMap Tree.hash))
 
-/-- the children of a freshly divided range are computed once, as a list; `ofList` turns the
-list into the child function and `listHash` is `calcDividedHash` over it
-(`kidsHash_ofList`: equal to `kidsHash` when the list has `df` entries). -/
-def ofList {D} (l : List (Tree D)) : Nat → Tree D := fun i => l.getD i (.leaf 0 none)
-
-def listHash {D} (A : DigAlg D) (l : List (Tree D)) : Option D :=
-  some (A.hN (l.filterMap Tree.hash))
+/-- `h.ranges[tuple]` for the `i`-th child (a missing child is a nil pointer in Go) -/
+def kid {D} (kids : List (Tree D)) (i : Nat) : Tree D := kids.getD i .stuck
 
 /-- `makeRange`: an undivided range computed from the skip list -/
 def mkLeaf {D} (A : DigAlg D) (sl : List Elem) (lo hi : Nat) : Tree D :=
-  let els := slRange sl lo hi
-  .leaf els.length (elemsHash A els)
+  .leaf (slRange sl lo hi).length (elemsHash A (slRange sl lo hi))
 
-/-- `makeRange` + the `elements > compareThreshold` branch of `makeBottomRanges`, for one range. -/
-def build {D} (A : DigAlg D) (p : Params) (sl : List Elem) : (fuel : Nat) → (lo hi : Nat) → Tree D
+/-- `makeRange` + the `elements > compareThreshold` branch of `makeBottomRanges`, for one range.
+`fuel` is the depth budget; when it is exhausted a further division is `stuck`. -/
+def build {D} (A : DigAlg D) (S : Splitter) (p : Params) (sl : List Elem) : (fuel : Nat) → (lo hi : Nat) → Tree D
   | 0, lo, hi =>
     if (slRange sl lo hi).length > p.thr then .stuck else mkLeaf A sl lo hi
   | fuel + 1, lo, hi =>
-    let els := slRange sl lo hi
-    if els.length > p.thr then
-      let l := (List.range p.df).map fun i =>
-        build A p sl fuel (childRange lo hi p.df i).1 (childRange lo hi p.df i).2
-      .div els.length (listHash A l) (ofList l)
+    if (slRange sl lo hi).length > p.thr then
+      .div (slRange sl lo hi).length
+        (kidsHash A ((List.range p.df).map fun i =>
+          build A S p sl fuel (S.child lo hi p.df i).1 (S.child lo hi p.df i).2))
+        ((List.range p.df).map fun i =>
+          build A S p sl fuel (S.child lo hi p.df i).1 (S.child lo hi p.df i).2)
     else mkLeaf A sl lo hi
 
 /-- depth budget: 64 levels suffice for df ≥ 2 when no narrow range is divided -/
 abbrev depthFuel : Nat := 70
 
 /-- the children of a range that has just been divided (`makeBottomRanges`) -/
-def buildKids {D} (A : DigAlg D) (p : Params) (sl : List Elem) (fuel lo hi : Nat) : List (Tree D) :=
-  (List.range p.df).map fun i => build A p sl fuel (childRange lo hi p.df i).1 (childRange lo hi p.df i).2
+def buildKids {D} (A : DigAlg D) (S : Splitter) (p : Params) (sl : List Elem) (fuel lo hi : Nat) : List (Tree D) :=
+  (List.range p.df).map fun i => build A S p sl fuel (S.child lo hi p.df i).1 (S.child lo hi p.df i).2
 
 /-- the top range is always divided (`newHashRanges`) -/
-def buildTop {D} (A : DigAlg D) (p : Params) (sl : List Elem) : Tree D :=
-  let l := buildKids A p sl depthFuel 0 (M - 1)
-  .div sl.length (listHash A l) (ofList l)
+def buildTop {D} (A : DigAlg D) (S : Splitter) (p : Params) (sl : List Elem) : Tree D :=
+  .div sl.length (kidsHash A (buildKids A S p sl depthFuel 0 (M - 1))) (buildKids A S p sl depthFuel 0 (M - 1))
 
-/-- replace child `i` -/
-def setKid {D} (kids : Nat → Tree D) (i : Nat) (t : Tree D) : Nat → Tree D :=
-  fun j => if j = i then t else kids j
+/-- `addElement(h)` followed by `recalculateHashes`, after the skip list became `sl`, below the
+top range. `fuel` is the remaining depth budget at this range (the one `build` has there). -/
+def addEl {D} (A : DigAlg D) (S : Splitter) (p : Params) (sl : List Elem) (h : Nat) :
+    (fuel : Nat) → Tree D → (lo hi : Nat) → Tree D
+  | 0, t, lo, hi =>
+    match t with
+    | .leaf cnt _ => if cnt + 1 > p.thr then .stuck else mkLeaf A sl lo hi
+    | _ => .stuck
+  | f + 1, t, lo, hi =>
+    match t with
+    | .leaf cnt _ =>
+      if cnt + 1 > p.thr then
+        .div (cnt + 1) (kidsHash A (buildKids A S p sl f lo hi)) (buildKids A S p sl f lo hi)
+      else mkLeaf A sl lo hi
+    | .div cnt _ kids =>
+      match S.bucket lo hi p.df h with
+      | none => .stuck
+      | some i =>
+        .div (cnt + 1)
+          (kidsHash A (kids.set i
+            (addEl A S p sl h f (kid kids i) (S.child lo hi p.df i).1 (S.child lo hi p.df i).2)))
+          (kids.set i
+            (addEl A S p sl h f (kid kids i) (S.child lo hi p.df i).1 (S.child lo hi p.df i).2))
+    | .stuck => .stuck
 
-/-- a leaf that went over the threshold: `isDivided = true; makeBottomRanges`. `fuel` is the
-remaining depth budget at this range; when it is exhausted the division is `stuck` (Go: unbounded
-recursion in `makeBottomRanges`). -/
-def divideLeaf {D} (A : DigAlg D) (p : Params) (sl : List Elem) (cnt lo hi : Nat) : Nat → Tree D
-  | 0 => .stuck
-  | f + 1 =>
-    let l := buildKids A p sl f lo hi
-    .div cnt (listHash A l) (ofList l)
+/-- `updateElement(h)` (fix-update) followed by `recalculateHashes`, below the top range -/
+def updEl {D} (A : DigAlg D) (S : Splitter) (p : Params) (sl : List Elem) (h : Nat) :
+    (fuel : Nat) → Tree D → (lo hi : Nat) → Tree D
+  | 0, t, lo, hi =>
+    match t with
+    | .leaf _ _ => mkLeaf A sl lo hi
+    | _ => .stuck
+  | f + 1, t, lo, hi =>
+    match t with
+    | .leaf _ _ => mkLeaf A sl lo hi
+    | .div cnt _ kids =>
+      match S.bucket lo hi p.df h with
+      | none => .stuck
+      | some i =>
+        .div cnt
+          (kidsHash A (kids.set i
+            (updEl A S p sl h f (kid kids i) (S.child lo hi p.df i).1 (S.child lo hi p.df i).2)))
+          (kids.set i
+            (updEl A S p sl h f (kid kids i) (S.child lo hi p.df i).1 (S.child lo hi p.df i).2))
+    | .stuck => .stuck
 
-/-- `addElement(h)` followed by `recalculateHashes`, after the skip list became `sl`.
-`fuel` is the remaining depth budget at this range (the same budget `build` has there). -/
-def addEl {D} (A : DigAlg D) (p : Params) (sl : List Elem) (h : Nat) :
-    Tree D → (fuel lo hi : Nat) → Tree D
-  | .leaf cnt _, fuel, lo, hi =>
-    if cnt + 1 > p.thr then divideLeaf A p sl (cnt + 1) lo hi fuel else mkLeaf A sl lo hi
-  | .div cnt _ kids, fuel, lo, hi =>
-    match bucketOf lo hi p.df h with
+/-- `removeElement(h)` (fix-merge) followed by `recalculateHashes`, below the top range. The
+Boolean is the state of the upward merge loop: `true` while every range below was a leaf or has
+been merged. -/
+def rmEl {D} (A : DigAlg D) (S : Splitter) (p : Params) (sl : List Elem) (h : Nat) :
+    (fuel : Nat) → Tree D → (lo hi : Nat) → Tree D × Bool
+  | 0, t, lo, hi =>
+    match t with
+    | .leaf _ _ => (mkLeaf A sl lo hi, true)
+    | _ => (.stuck, false)
+  | f + 1, t, lo, hi =>
+    match t with
+    | .leaf _ _ => (mkLeaf A sl lo hi, true)
+    | .div cnt _ kids =>
+      match S.bucket lo hi p.df h with
+      | none => (.stuck, false)
+      | some i =>
+        if (rmEl A S p sl h f (kid kids i) (S.child lo hi p.df i).1 (S.child lo hi p.df i).2).2
+            && decide (cnt - 1 ≤ p.thr) then
+          (mkLeaf A sl lo hi, true)
+        else
+          (.div (cnt - 1)
+            (kidsHash A (kids.set i
+              (rmEl A S p sl h f (kid kids i) (S.child lo hi p.df i).1 (S.child lo hi p.df i).2).1))
+            (kids.set i
+              (rmEl A S p sl h f (kid kids i) (S.child lo hi p.df i).1 (S.child lo hi p.df i).2).1),
+           false)
+    | .stuck => (.stuck, false)
+
+/-- the walk through the top range, which is always divided and never merged: the count becomes
+`dc cnt`, the child holding `h` is replaced by `f child`. -/
+def topOp {D} (A : DigAlg D) (S : Splitter) (p : Params) (h : Nat) (dc : Nat → Nat)
+    (f : Tree D → Nat → Nat → Tree D) : Tree D → Tree D
+  | .div cnt _ kids =>
+    match S.bucket 0 (M - 1) p.df h with
     | none => .stuck
     | some i =>
-      let kids' := setKid kids i
-        (addEl A p sl h (kids i) (fuel - 1) (childRange lo hi p.df i).1 (childRange lo hi p.df i).2)
-      .div (cnt + 1) (kidsHash A p.df kids') kids'
-  | .stuck, _, _, _ => .stuck
-
-/-- `updateElement(h)` (fix-update) followed by `recalculateHashes` -/
-def updEl {D} (A : DigAlg D) (p : Params) (sl : List Elem) (h : Nat) :
-    Tree D → (lo hi : Nat) → Tree D
-  | .leaf _ _, lo, hi => mkLeaf A sl lo hi
-  | .div cnt _ kids, lo, hi =>
-    match bucketOf lo hi p.df h with
-    | none => .stuck
-    | some i =>
-      let kids' := setKid kids i
-        (updEl A p sl h (kids i) (childRange lo hi p.df i).1 (childRange lo hi p.df i).2)
-      .div cnt (kidsHash A p.df kids') kids'
-  | .stuck, _, _ => .stuck
-
-/-- `removeElement(h)` (fix-merge) followed by `recalculateHashes`. The Boolean is the state of
-the upward merge loop: `true` while every range below was a leaf or has been merged. -/
-def rmEl {D} (A : DigAlg D) (p : Params) (sl : List Elem) (h : Nat) (isTop : Bool) :
-    Tree D → (lo hi : Nat) → Tree D × Bool
-  | .leaf _ _, lo, hi => (mkLeaf A sl lo hi, true)
-  | .div cnt _ kids, lo, hi =>
-    match bucketOf lo hi p.df h with
-    | none => (.stuck, false)
-    | some i =>
-      let r := rmEl A p sl h false (kids i) (childRange lo hi p.df i).1 (childRange lo hi p.df i).2
-      if r.2 && !isTop && cnt - 1 ≤ p.thr then
-        (mkLeaf A sl lo hi, true)
-      else
-        let kids' := setKid kids i r.1
-        (.div (cnt - 1) (kidsHash A p.df kids') kids', false)
-  | .stuck, _, _ => (.stuck, false)
+      .div (dc cnt)
+        (kidsHash A (kids.set i
+          (f (kid kids i) (S.child 0 (M - 1) p.df i).1 (S.child 0 (M - 1) p.df i).2)))
+        (kids.set i
+          (f (kid kids i) (S.child 0 (M - 1) p.df i).1 (S.child 0 (M - 1) p.df i).2))
+  | _ => .stuck
 
 /-! ### the index -/
 
@@ -226,42 +267,56 @@ structure Index (D : Type) where
   sl : List Elem
   top : Tree D
 
-def Index.new {D} (A : DigAlg D) (df thr : Nat) : Index D :=
-  let p := Params.clamp df thr
-  ⟨p, [], buildTop A p []⟩
+def Index.new {D} (A : DigAlg D) (S : Splitter) (df thr : Nat) : Index D :=
+  ⟨Params.clamp df thr, [], buildTop A S (Params.clamp df thr) []⟩
 
 /-- one element of `Set` -/
-def Index.set1 {D} (A : DigAlg D) (ix : Index D) (e : Elem) : Index D :=
-  let existed := slHas e.id ix.sl
-  let sl := slInsert e (slRemove e.id ix.sl)
-  if existed then { ix with sl := sl, top := updEl A ix.p sl e.hash ix.top 0 (M - 1) }
-  else { ix with sl := sl, top := addEl A ix.p sl e.hash ix.top (depthFuel + 1) 0 (M - 1) }
+def Index.set1 {D} (A : DigAlg D) (S : Splitter) (ix : Index D) (e : Elem) : Index D :=
+  if slHas e.id ix.sl then
+    { ix with sl := slInsert e (slRemove e.id ix.sl),
+              top := topOp A S ix.p e.hash id
+                (updEl A S ix.p (slInsert e (slRemove e.id ix.sl)) e.hash depthFuel) ix.top }
+  else
+    { ix with sl := slInsert e (slRemove e.id ix.sl),
+              top := topOp A S ix.p e.hash (· + 1)
+                (addEl A S ix.p (slInsert e (slRemove e.id ix.sl)) e.hash depthFuel) ix.top }
 
 /-- `Set(elements...)` -/
-def Index.set {D} (A : DigAlg D) (ix : Index D) (es : List Elem) : Index D :=
-  es.foldl (Index.set1 A) ix
+def Index.set {D} (A : DigAlg D) (S : Splitter) (ix : Index D) (es : List Elem) : Index D :=
+  es.foldl (Index.set1 A S) ix
 
 /-- `RemoveId`; `none` = `ErrElementNotFound` (index unchanged) -/
-def Index.remove {D} (A : DigAlg D) (ix : Index D) (id hash : Nat) : Option (Index D) :=
+def Index.remove {D} (A : DigAlg D) (S : Splitter) (ix : Index D) (id hash : Nat) : Option (Index D) :=
   if slHas id ix.sl then
-    let sl := slRemove id ix.sl
-    some { ix with sl := sl, top := (rmEl A ix.p sl hash true ix.top 0 (M - 1)).1 }
+    some { ix with sl := slRemove id ix.sl,
+                   top := topOp A S ix.p hash (· - 1)
+                     (fun t lo hi => (rmEl A S ix.p (slRemove id ix.sl) hash depthFuel t lo hi).1) ix.top }
   else none
 
 def Index.hash {D} (ix : Index D) : Option D := ix.top.hash
 
 /-- `h.ranges[rangeTuple{from,to}]`: the node with exactly this range, found by descending from
 `(lo,hi)`. Returns its `(elements, hash)`. -/
-def findNode {D} (df : Nat) (qlo qhi : Nat) : Tree D → (lo hi : Nat) → Option (Nat × Option D)
-  | .leaf c h, lo, hi => if lo = qlo ∧ hi = qhi then some (c, h) else none
-  | .div c h kids, lo, hi =>
-    if lo = qlo ∧ hi = qhi then some (c, h)
-    else if lo ≤ qlo ∧ qhi ≤ hi ∧ qlo ≤ qhi then
-      match bucketOf lo hi df qlo with
-      | none => none
-      | some i => findNode df qlo qhi (kids i) (childRange lo hi df i).1 (childRange lo hi df i).2
+def findNode {D} (S : Splitter) (df : Nat) (qlo qhi : Nat) :
+    (fuel : Nat) → Tree D → (lo hi : Nat) → Option (Nat × Option D)
+  | 0, t, lo, hi =>
+    if lo = qlo ∧ hi = qhi then
+      match t with
+      | .leaf c h => some (c, h)
+      | .div c h _ => some (c, h)
+      | .stuck => none
     else none
-  | .stuck, _, _ => none
+  | f + 1, t, lo, hi =>
+    match t with
+    | .leaf c h => if lo = qlo ∧ hi = qhi then some (c, h) else none
+    | .div c h kids =>
+      if lo = qlo ∧ hi = qhi then some (c, h)
+      else if lo ≤ qlo ∧ qhi ≤ hi ∧ qlo ≤ qhi then
+        match S.bucket lo hi df qlo with
+        | none => none
+        | some i => findNode S df qlo qhi f (kid kids i) (S.child lo hi df i).1 (S.child lo hi df i).2
+      else none
+    | .stuck => none
 
 structure RangeRes (D : Type) where
   hash : Option D
@@ -271,9 +326,9 @@ structure RangeRes (D : Type) where
 def pairs (l : List Elem) : List (Nat × Nat) := l.map fun e => (e.id, e.head)
 
 /-- `diff.getRange` with fix-nilhash -/
-def Index.getRange {D} (A : DigAlg D) (ix : Index D) (lo hi : Nat) (wantEls : Bool) : RangeRes D :=
+def Index.getRange {D} (A : DigAlg D) (S : Splitter) (ix : Index D) (lo hi : Nat) (wantEls : Bool) : RangeRes D :=
   let els := slRange ix.sl lo hi
-  match findNode ix.p.df lo hi ix.top 0 (M - 1) with
+  match findNode S ix.p.df lo hi (depthFuel + 1) ix.top 0 (M - 1) with
   | some (c, h) => if wantEls then ⟨h, pairs els, els.length⟩ else ⟨h, [], c⟩
   | none => ⟨elemsHash A els, pairs els, els.length⟩
 
@@ -298,68 +353,73 @@ deriving DecidableEq, Repr
 
 def lookupHead (l : List (Nat × Nat)) (id : Nat) : Option Nat := (l.find? fun e => e.1 == id).map (·.2)
 
+/-- first loop of `compareElementsEqual` (over `my`) -/
+def stepMyEqual (other : List (Nat × Nat)) (c : DCtx) (e : Nat × Nat) : DCtx :=
+  match lookupHead other e.1 with
+  | none => { c with removed := c.removed ++ [e.1] }
+  | some h => if h = e.2 then c else { c with changed := c.changed ++ [e.1] }
+
+/-- second loop of both variants (over `other`) -/
+def stepOtherNew (my : List (Nat × Nat)) (c : DCtx) (e : Nat × Nat) : DCtx :=
+  match lookupHead my e.1 with
+  | none => { c with newIds := c.newIds ++ [e.1] }
+  | some _ => c
+
+/-- first loop of `compareElementsGreater` (heads compared as strings; the harness interns them
+order-preserving) -/
+def stepMyGreater (other : List (Nat × Nat)) (c : DCtx) (e : Nat × Nat) : DCtx :=
+  match lookupHead other e.1 with
+  | none => { c with removed := c.removed ++ [e.1] }
+  | some h =>
+    if h = e.2 then c
+    else if h > e.2 then { c with theirChanged := c.theirChanged ++ [e.1] }
+    else { c with changed := c.changed ++ [e.1] }
+
 /-- `compareElementsEqual` -/
 def cmpEqual (c : DCtx) (my other : List (Nat × Nat)) : DCtx :=
-  let c := my.foldl (fun c e =>
-    match lookupHead other e.1 with
-    | none => { c with removed := c.removed ++ [e.1] }
-    | some h => if h = e.2 then c else { c with changed := c.changed ++ [e.1] }) c
-  other.foldl (fun c e =>
-    match lookupHead my e.1 with
-    | none => { c with newIds := c.newIds ++ [e.1] }
-    | some _ => c) c
+  other.foldl (stepOtherNew my) (my.foldl (stepMyEqual other) c)
 
-/-- `compareElementsGreater` (heads compared as strings; the harness interns them order-preserving) -/
+/-- `compareElementsGreater` -/
 def cmpGreater (c : DCtx) (my other : List (Nat × Nat)) : DCtx :=
-  let c := my.foldl (fun c e =>
-    match lookupHead other e.1 with
-    | none => { c with removed := c.removed ++ [e.1] }
-    | some h =>
-      if h = e.2 then c
-      else if h > e.2 then { c with theirChanged := c.theirChanged ++ [e.1] }
-      else { c with changed := c.changed ++ [e.1] }) c
-  other.foldl (fun c e =>
-    match lookupHead my e.1 with
-    | none => { c with newIds := c.newIds ++ [e.1] }
-    | some _ => c) c
+  other.foldl (stepOtherNew my) (my.foldl (stepMyGreater other) c)
 
 def cmpEls (greater : Bool) : DCtx → List (Nat × Nat) → List (Nat × Nat) → DCtx :=
   if greater then cmpGreater else cmpEqual
 
 /-- `compareResults` -/
-def compareResults {D} [DecidableEq D] (A : DigAlg D) (greater : Bool) (my : Index D) (c : DCtx)
+def compareResults {D} [DecidableEq D] (A : DigAlg D) (S : Splitter) (greater : Bool) (my : Index D) (c : DCtx)
     (r : Range) (myRes otherRes : RangeRes D) : DCtx :=
   if myRes.hash = otherRes.hash then c
   else if otherRes.elems.length = otherRes.count then
     if myRes.elems.length = myRes.count then cmpEls greater c myRes.elems otherRes.elems
-    else cmpEls greater c (my.getRange A r.lo r.hi true).elems otherRes.elems
+    else cmpEls greater c (my.getRange A S r.lo r.hi true).elems otherRes.elems
   else if (otherRes.count ≤ my.p.thr ∧ otherRes.elems.length = 0) ∨ myRes.elems.length = myRes.count then
     { c with prepare := c.prepare ++ [{ r with els := true }] }
   else
     { c with prepare := c.prepare ++ (genTupleRanges r.lo r.hi my.p.df).map fun t => ⟨t.1, t.2, false⟩ }
 
 /-- the remote side as seen by the diff: in process, or through the wire adapters -/
-def answer {D} (A : DigAlg D) (wire : Bool) (ix : Index D) (r : Range) : RangeRes D :=
-  let a := ix.getRange A r.lo r.hi r.els
+def answer {D} (A : DigAlg D) (S : Splitter) (wire : Bool) (ix : Index D) (r : Range) : RangeRes D :=
+  let a := ix.getRange A S r.lo r.hi r.els
   if wire then a.wire else a
 
 /-- one round: every range of `toSend` -/
-def round {D} [DecidableEq D] (A : DigAlg D) (greater wire : Bool) (my other : Index D) (c : DCtx)
+def round {D} [DecidableEq D] (A : DigAlg D) (S : Splitter) (greater wire : Bool) (my other : Index D) (c : DCtx)
     (toSend : List Range) : DCtx :=
   toSend.foldl (fun c r =>
-    compareResults A greater my c r (my.getRange A r.lo r.hi r.els) (answer A wire other r)) c
+    compareResults A S greater my c r (my.getRange A S r.lo r.hi r.els) (answer A S wire other r)) c
 
 /-- `Diff` / `CompareDiff`: rounds until nothing is left to send. `none` = the fuel ran out
 (the Go loop would still be running). -/
-def rounds {D} [DecidableEq D] (A : DigAlg D) (greater wire : Bool) (my other : Index D) :
+def rounds {D} [DecidableEq D] (A : DigAlg D) (S : Splitter) (greater wire : Bool) (my other : Index D) :
     (fuel : Nat) → DCtx → List Range → Option DCtx
   | _, c, [] => some c
   | 0, _, _ :: _ => none
   | fuel + 1, c, r :: rs =>
-    let c' := round A greater wire my other { c with prepare := [] } (r :: rs)
-    rounds A greater wire my other fuel c' c'.prepare
+    let c' := round A S greater wire my other { c with prepare := [] } (r :: rs)
+    rounds A S greater wire my other fuel c' c'.prepare
 
-def diff {D} [DecidableEq D] (A : DigAlg D) (greater wire : Bool) (my other : Index D) : Option DCtx :=
-  rounds A greater wire my other 80 {} [⟨0, M - 1, false⟩]
+def diff {D} [DecidableEq D] (A : DigAlg D) (S : Splitter) (greater wire : Bool) (my other : Index D) : Option DCtx :=
+  rounds A S greater wire my other 80 {} [⟨0, M - 1, false⟩]
 
 end AnySync.Ldiff
